@@ -623,9 +623,27 @@ def check_nonint(ctx, out):
                 for e in p["p"]:
                     if isinstance(e, dict) and e.get("f") in ("is_content_modified", "_is_start_tag_modified") and "BlockWithContext" in (e.get("adt") or ""):
                         readers.setdefault(b.id, set()).add(e["f"])
+    # a helper that reads the flags (an accessor such as `is_modified()`) is judged by who calls it
+    callers = {}
+    for b in ctx.reachable_bodies():
+        for bi, t in b.calls():
+            r = t.get("res") or ""
+            if r:
+                callers.setdefault(r, set()).add(b.id)
+
+    def only_from_allowed(bid, depth=4, seen=()):
+        if allowed.search(bid):
+            return True
+        if depth == 0 or bid in seen:
+            return False
+        b = ctx.facts.bodies.get(bid)
+        cs = set(callers.get(bid, ()))
+        if b is not None and b.kind == "Closure" and b.parent:
+            cs.add(b.parent)
+        return bool(cs) and all(only_from_allowed(c, depth - 1, seen + (bid,)) for c in cs)
     n = 0
     for bid, fields in sorted(readers.items()):
-        if allowed.search(bid):
+        if only_from_allowed(bid):
             n += 1
         else:
             out.viol("C02.nonint", "C02.nonint|%s" % bid, ctx.where(ctx.facts.bodies[bid]),
